@@ -18,11 +18,12 @@
     NOT proved  (validated by execution only, tools/props/c18.py): element / charge / bond order / hydrogen
                 count through RDKit's C++, bonding distances after RDKit's embedding, numpy's float64 arithmetic. *)
 From Coq Require Import String.
-From Coq Require Import List Ascii ZArith Bool QArith.
+From Coq Require Import List Ascii ZArith Bool QArith PrimFloat.
 From CGV Require Import Base.PyBase Geom.Num Gen.GeomGen Geom.IndexMap Geom.ForwardMap Geom.CoordDefs
      Geom.IndexMapProofs Geom.ForwardMapProofs Geom.CoordProofs.
 From CGV Require Import Base.PyVal Base.NxGraph Resolve.GraphOps Resolve.MapProofs Resolve.CopyProofs Resolve.PipelineFull
      Resolve.FragidProofs Gen.HydroGen Hydro.Hydrogens Hydro.HydroDefs Hydro.RebuildProofs Geom.BeadTie.
+From CGV Require Import Geom.PySum Geom.PySumProofs.
 Import ListNotations.
 
 (** ---------- HEADLINE: the repaired code (the generated facts must have the repaired values for these to compile) *)
@@ -56,6 +57,25 @@ Proof. exact coords_on_own_atom_nodekey. Qed.
 (** the embedding clause for the code as generated NOW (partial + refuted, or full after the repair) *)
 Theorem C18_embed_status : embed_status embed_write_mode.
 Proof. exact (embed_status_all embed_write_mode). Qed.
+
+(** the denominator `sum(weights.values())` as CPython >= 3.12 computes it (Geom/PySum.v: ints exactly, floats with Neumaier's
+    compensation; the float64 instance of this model is what the per-run comparison executes, bit for bit): over the
+    rationals it IS the sum of the weights, whatever the comparisons of the compensated step decide, so the bead computed
+    with it is the bead of the model above and translates with the atoms *)
+Theorem C18_python_sum_is_sum : forall (c : cmpops Q) mode (ws : list (Z * (Q * bool))),
+  (denom_py numQ c mode ws == denom numQ mode (strip ws))%Q.
+Proof. exact denom_py_Q. Qed.
+Theorem C18_forward_map_python_sum : forall (c : cmpops Q) (ws : list (Z * (Q * bool))),
+  ~ (sum_weights numQ (strip ws) == 0)%Q ->
+  forall pos t, veq (beadT_py c DivBySum (shift t pos) ws) (v3add numQ (beadT_py c DivBySum pos ws) t).
+Proof. exact forward_map_py_translation. Qed.
+Example C18_nonvacuous_python_sum :
+  ~ (sum_weights numQ (strip [(0%Z, (1#2, false)); (1%Z, (2, true))]) == 0)%Q /\
+  py_sum numF cmpF [(0x1.999999999999ap-4, false); (0x1.999999999999ap-3, false); (0x1.3333333333333p-2, false)]%float
+  = 0x1.3333333333333p-1%float /\
+  sum_weights numF [(0%Z, 0x1.999999999999ap-4); (1%Z, 0x1.999999999999ap-3); (2%Z, 0x1.3333333333333p-2)]%float
+  = 0x1.3333333333334p-1%float.
+Proof. exact py_sum_nonvacuous. Qed.
 
 (** forward_map_molecule, /len(weights): translation-equivariant IFF the weights sum to their number *)
 Theorem C18_forward_map_translation_len : forall ws, ws <> [] ->
@@ -161,6 +181,8 @@ Print Assumptions C18_coords_on_own_atom_enum.
 Print Assumptions C18_coords_on_own_atom_nodekey.
 Print Assumptions C18_embed_status.
 Print Assumptions C18_forward_map_translation_len.
+Print Assumptions C18_python_sum_is_sum.
+Print Assumptions C18_forward_map_python_sum.
 Print Assumptions C18_forward_map_translation_sum.
 Print Assumptions C18_forward_map_status.
 Print Assumptions C18_bead_uses_own_atoms.
